@@ -75,13 +75,13 @@ func ParseKern(src []byte) (Kern, int, error) {
 		return Kern{}, 0, fmt.Errorf("reading Kern: invalid number of subtables %d", numTables)
 	}
 
-	out := make([]KernSubtable, numTables)
+	out := make([]KernSubtable, 0, numTables)
 	var (
 		err    error
 		nbRead int
 		isOT   = major == 0
 	)
-	for i := range out {
+	for i := 0; i < int(numTables); i++ {
 		if L := len(src); L < nbRead {
 			return Kern{}, 0, fmt.Errorf("reading Kern: "+"EOF: expected length: %d, got %d", nbRead, L)
 		}
@@ -91,8 +91,8 @@ func ParseKern(src []byte) (Kern, int, error) {
 		// can not refer to (and copy) the same bytes; the length of the last one is not
 		// needed (and overflows its 16 bits in some fonts)
 		subtable := src
-		if i != len(out)-1 {
-			var length, headerSize int
+		var length, headerSize int
+		if i != int(numTables)-1 {
 			if isOT {
 				headerSize = 6
 				if len(src) >= headerSize {
@@ -110,14 +110,30 @@ func ParseKern(src []byte) (Kern, int, error) {
 			subtable = src[:length]
 		}
 
+		// a subtable with an unknown format is skipped, as Harfbuzz does: it is not an error
+		// of the whole table (its length has been checked above; the last one ends the table)
+		formatAt := 5 // AAT: length (4 bytes), coverage, format
 		if isOT {
-			out[i], nbRead, err = ParseOTKernSubtableHeader(subtable)
+			formatAt = 4 // version, length (2 bytes each), format
+		}
+		if len(subtable) >= 6 && subtable[formatAt] > 3 {
+			if i == int(numTables)-1 {
+				break
+			}
+			nbRead = length
+			continue
+		}
+
+		var st KernSubtable
+		if isOT {
+			st, nbRead, err = ParseOTKernSubtableHeader(subtable)
 		} else {
-			out[i], nbRead, err = ParseAATKernSubtableHeader(subtable)
+			st, nbRead, err = ParseAATKernSubtableHeader(subtable)
 		}
 		if err != nil {
 			return Kern{}, 0, err
 		}
+		out = append(out, st)
 	}
 
 	return Kern{
